@@ -37,6 +37,16 @@ def generate(rng, tier):
                     pix = ["%d,%d" % (x, 3) for x in range(-20, 40)]
                     body = ["R"] + vb + ["-"] + R.gradient_regs(rng, 10, 10, stops, shape, spread, mat=mat, sel=0) + R.full_rect_path(vb)
                     g["at-axis"].append("GRAD 0 0 16 16 %d %s %s" % (len(pix), " ".join(pix), " ".join(body)))
+    # the six matrix registers sit below NBASE modulo 64: every NBASE, both shapes
+    g["nbase-sweep"] = []
+    for nb in range(64):
+        for shape in range(2):
+            stops = R.good_stops(rng, 3)
+            mat = [C.fh(x) for x in (1 / 8.0, 1 / 32.0, -0.75, -1 / 16.0, 3 / 16.0, -1.25)]
+            vb = [C.fh(0.0), C.fh(0.0), C.fh(16.0), C.fh(16.0)]
+            pix = ["%d,%d" % (x, y) for x in (0, 5, 11, 15) for y in (1, 8, 14)]
+            body = ["R"] + vb + ["-"] + R.gradient_regs(rng, 20, nb, stops, shape, rng.below(4), mat=mat, sel=0) + R.full_rect_path(vb)
+            g["nbase-sweep"].append("GRAD 0 0 16 16 %d %s %s" % (len(pix), " ".join(pix), " ".join(body)))
     for _ in range(2500 if tier == "quick" else 100000):
         vb, rc = R.viewbox(rng), R.rect(rng)
         ns = rng.choice([2, 2, 3, 4, 7, 20])
@@ -47,7 +57,7 @@ def generate(rng, tier):
             if len(set(s[0] for s in stops)) != ns:
                 continue
         pix = ["%d,%d" % (rng.range(-50, 350), rng.range(-50, 350)) for _ in range(12)]
-        body = ["R"] + vb + ["-"] + R.gradient_regs(rng, rng.choice([0, 10, 58, 63]), rng.choice([6, 10, 58, 63]), stops, rng.below(2), rng.below(4), sel=0) + R.full_rect_path(vb)
+        body = ["R"] + vb + ["-"] + R.gradient_regs(rng, rng.choice([0, 10, 58, 63]), rng.choice([0, 1, 2, 3, 4, 5, 6, 10, 58, 63, rng.below(64)]), stops, rng.below(2), rng.below(4), sel=0) + R.full_rect_path(vb)
         g["at-random"].append("GRAD %d %d %d %d %d %s %s" % (rc[0], rc[1], rc[2], rc[3], len(pix), " ".join(pix), " ".join(body)))
     return g
 
